@@ -473,7 +473,9 @@ def e_bad_names(rng, m):
     if k == "attribute":
         c["children"].append(_newkey("zeta9", rng.choice(
             ["not-ident", "1x", "a.b", "zeta9\n", "a^b", "a[0]", "z`",
-             "a\\b", "b]", "@a", "a:b", "a/b"])))
+             "a\\b", "b]", "@a", "a:b", "a/b",
+             # (no attribute value is trimmed: a padded one is as ill-formed)
+             " zeta9", "zeta9 ", "zeta9\t"])))
         return "bad attribute"
     if k == "getSection":
         c["children"].append(_newkey("zeta9", "getSectionThing"))
@@ -483,18 +485,27 @@ def e_bad_names(rng, m):
         return None
     if k == "required":
         ch["extra_attrs"] = {"required": rng.choice(["maybe", "true", "YES",
-                                                     "1", "", "yes\n"])}
+                                                     "1", "", "yes\n",
+                                                     "yes ", " no", "no\t",
+                                                     " yes "])}
         return "bad required value"
     if k == "datatype":
         if ch["kind"] not in ("key", "multikey"):
             return None
         ch["extra_attrs"] = {"datatype": rng.choice([
-            "nosuchdt", "in teger", "1x", "integer\n",
+            "nosuchdt", "in teger", "1x", "integer\n", " integer",
+            "integer ", "\tinteger", " zcverif_dt.p1.conv",
             # dotted, but no dotted name
             "os..path", "os.", "a b.c", "os.pa th", "os.path.join.",
             "1a.b", "os.1x", "zcverif_dt.fam.", "zcverif_dt..fam.wrap"])}
         return "unknown datatype"
-    ch["extra_attrs"] = {"handler": rng.choice(["1bad", "a b", "h1\n"])}
+    if ch["kind"] in ("section", "multisection") and rng.random() < 0.5:
+        # a padded reference to a type that exists
+        ch["extra_attrs"] = {"type": rng.choice([" %s", "%s ", "\t%s"])
+                             % ch["type"]}
+        return "padded type reference"
+    ch["extra_attrs"] = {"handler": rng.choice(["1bad", "a b", "h1\n", " h1",
+                                                "h1 "])}
     return "bad handler name"
 
 
